@@ -137,6 +137,7 @@ void assume(const z3::expr& cond, const std::string& why = "");
 // obligation: pc => prop.  Records verdict (unsat = discharged / sat = violation candidate / unknown)
 bool check(const std::string& name, const z3::expr& prop);
 bool check_eq(const std::string& name, const Real& a, const Real& b);
+bool check_identity(const std::string& name, const Real& a, const Real& b);  // as check_eq, tried first without branch conditions
 // |a-b| <= rel * max(|a|,|b|, floor)   (used only where the code itself approximates in exact arithmetic)
 bool check_close(const std::string& name, const Real& a, const Real& b, double rel, double floor_abs = 0.0);
 // a violation that does not need a solver (e.g. an index assertion, a wrong exception) on the current path
@@ -147,6 +148,8 @@ void expect(const std::string& name, bool ok, const std::string& detail = "");
 void witness(const std::string& label);  // reachability witness: path condition is satisfiable here
 void note(const std::string& key, const std::string& value);
 void cut(const std::string& why);  // throw PathCut
+// taint: a branch whose condition mentions a symbol with this name prefix is recorded as a violation and the path is cut
+void set_taint_prefix(const std::string& prefix, const std::string& obligation_name);
 std::vector<std::string> symbols_of(const Real& a);  // names of the symbols the term mentions (syntactically)
 bool mentions(const Real& a, const std::string& name_prefix);
 
